@@ -9,10 +9,130 @@ pub use proofs::run;
 
 mod proofs {
     use super::*;
+    use std::sync::atomic::{AtomicU8, Ordering};
+
+    /// Retry::next: the counter advances by one and the answer is `current' <= max`; reset zeroes it.
+    #[cfg_attr(kani, kani::proof)]
+    pub fn c08_retry_contract() {
+        let current: u32 = kani::any();
+        let max: u32 = kani::any();
+        kani::assume(current < u32::MAX);
+        let mut r = Retry { current, max };
+        let ok = r.next();
+        assert!(r.current == current + 1 && r.max == max);
+        assert!(ok == (current + 1 <= max));
+        r.reset();
+        assert!(r.current == 0 && r.max == max);
+        let fresh = Retry::new(max);
+        assert!(fresh.current == 0 && fresh.max == max);
+        kani::cover!(true);
+    }
+
+    /// Capacity::next: never panics for ANY idx (wrap-around included), records last_len in slot idx % 32, and
+    /// returns at least last_len + 1 (saturating).
+    #[cfg_attr(kani, kani::proof)]
+    #[cfg_attr(kani, kani::unwind(34))]
+    pub fn c08_capacity_contract() {
+        let idx: usize = kani::any();
+        let last: usize = kani::any();
+        let seed: usize = kani::any();
+        let mut c = Capacity { rolling_values: [seed; CAPACITY_WINDOW], idx };
+        let r = c.next(last);
+        assert!(c.idx == idx.wrapping_add(1));
+        assert!(c.rolling_values[idx % CAPACITY_WINDOW] == last);
+        let m = if last > seed { last } else { seed };
+        assert!(r >= last && r >= 1);
+        assert!(r == m.saturating_add(if m / 10 > 1 { m / 10 } else { 1 }));
+        kani::cover!(true);
+    }
+
+    /// Kani compiles with panic=abort and its compiler crashes on the catch_unwind intrinsic (ICE at
+    /// kani-compiler/src/intrinsics.rs:243): under Kani `catch_unwind(f)` is `Ok(f())` (trusted stub).
+    pub fn stub_catch_unwind<F: FnOnce() -> R + std::panic::UnwindSafe, R>(f: F) -> std::thread::Result<R> {
+        Ok(f())
+    }
+
+    static FIRED: [AtomicU8; 4] = [AtomicU8::new(0), AtomicU8::new(0), AtomicU8::new(0), AtomicU8::new(0)];
+
+    fn watcher(i: usize) -> Watcher {
+        Box::new(move || {
+            FIRED[i].fetch_add(1, Ordering::SeqCst);
+        })
+    }
+
+    /// Watchers (boxed FnOnce callbacks, outside Verus): notify_on_flush fires every on_flush watcher exactly
+    /// once and none of the on_take ones, leaves on_flush empty (a second notify fires nothing), and vice versa.
+    #[cfg_attr(kani, kani::proof)]
+    #[cfg_attr(kani, kani::unwind(4))]
+    #[cfg_attr(kani, kani::stub(panic::catch_unwind, stub_catch_unwind))]
+    pub fn c07_watchers_notify_contract() {
+        let n_flush: usize = kani::any();
+        let n_take: usize = kani::any();
+        kani::assume(n_flush <= 2 && n_take <= 2);
+        let mut w = Watchers::new();
+        let mut i = 0;
+        while i < n_flush {
+            w.push_on_flush(watcher(i));
+            i += 1;
+        }
+        let mut j = 0;
+        while j < n_take {
+            w.push_on_take(watcher(2 + j));
+            j += 1;
+        }
+        assert!(w.on_flush.len() == n_flush && w.on_take.len() == n_take);
+        let flush_first: bool = kani::any();
+        if flush_first {
+            w.notify_on_flush();
+            assert!(w.on_flush.is_empty() && w.on_take.len() == n_take);
+            assert!(FIRED[0].load(Ordering::SeqCst) == if n_flush > 0 { 1 } else { 0 });
+            assert!(FIRED[1].load(Ordering::SeqCst) == if n_flush > 1 { 1 } else { 0 });
+            assert!(FIRED[2].load(Ordering::SeqCst) == 0 && FIRED[3].load(Ordering::SeqCst) == 0);
+            w.notify_on_flush();
+        } else {
+            w.notify_on_take();
+            assert!(w.on_take.is_empty() && w.on_flush.len() == n_flush);
+            assert!(FIRED[2].load(Ordering::SeqCst) == if n_take > 0 { 1 } else { 0 });
+            assert!(FIRED[3].load(Ordering::SeqCst) == if n_take > 1 { 1 } else { 0 });
+            assert!(FIRED[0].load(Ordering::SeqCst) == 0 && FIRED[1].load(Ordering::SeqCst) == 0);
+            w.notify_on_take();
+        }
+        w.notify_on_flush();
+        w.notify_on_take();
+        w.notify_on_flush();
+        assert!(FIRED[0].load(Ordering::SeqCst) == if n_flush > 0 { 1 } else { 0 });
+        assert!(FIRED[1].load(Ordering::SeqCst) == if n_flush > 1 { 1 } else { 0 });
+        assert!(FIRED[2].load(Ordering::SeqCst) == if n_take > 0 { 1 } else { 0 });
+        assert!(FIRED[3].load(Ordering::SeqCst) == if n_take > 1 { 1 } else { 0 });
+        kani::cover!(true);
+    }
+
+    /// Delay::next: min(2 * current + step, max) - never above max, non-decreasing while current <= max; reset = 0.
+    #[cfg_attr(kani, kani::proof)]
+    pub fn c08_delay_contract() {
+        let (cs, cn, ss, sn, ms, mn): (u64, u32, u64, u32, u64, u32) = (kani::any(), kani::any(), kani::any(), kani::any(), kani::any(), kani::any());
+        kani::assume(cn < 1_000_000_000 && sn < 1_000_000_000 && mn < 1_000_000_000);
+        // the configured values of `bounded()` are far below this: keep 2 * current + step representable
+        kani::assume(cs < (1u64 << 60) && ss < (1u64 << 60));
+        let (current, step, max) = (Duration::new(cs, cn), Duration::new(ss, sn), Duration::new(ms, mn));
+        kani::assume(current <= max);
+        let mut d = Delay { current, step, max };
+        let r = d.next();
+        assert!(r == d.current && d.step == step && d.max == max);
+        assert!(r <= max && r >= current);
+        assert!(r == core::cmp::min(current * 2 + step, max));
+        d.reset();
+        assert!(d.current == Duration::ZERO);
+        kani::cover!(true);
+    }
 
     // ---- replay table (generated by tools/mktable.py) ----
     pub fn run(name: &str) -> bool {
         match name {
+            "c08_retry_contract" => c08_retry_contract(),
+            "c08_capacity_contract" => c08_capacity_contract(),
+            "c07_watchers_notify_contract" => c07_watchers_notify_contract(),
+            "c08_delay_contract" => c08_delay_contract(),
             _ => return false,
         }
         true
